@@ -11,6 +11,7 @@ covered by the repository's loom tests, not by these theorems).
 -/
 import NexoVerif.Lemmas.BcastArm
 import NexoVerif.Lemmas.BcastLock
+import NexoVerif.Extracted
 
 namespace NexoVerif.Bcast
 set_option linter.unusedSimpArgs false
@@ -99,6 +100,10 @@ theorem clones_share_one_connection_list (ops : List LOp) (c : Nat) (hc : c < (l
   by_cases he : e = (lrun ops).sepoch
   · simp [he, inv.fresh v e hmem he]
   · simp [he]
+
+/-- **source_bumps_the_shared_epoch** — the rule the lock theorems rest on, read from the source on every run:
+`CachedRwLock::write` takes the mutex and stores *shared epoch + 1* (the model's `writePush`). -/
+theorem source_bumps_the_shared_epoch : Extracted.lockWriteBumpsSharedEpoch = true := by decide
 
 /-- **a_connection_is_never_forgotten** — a write appends to the shared list and nothing ever removes from it: a
 connection added at any point is returned by every later read through any clone. -/
